@@ -16,7 +16,7 @@ import (
 func init() {
 	register("C07", PropCheck{
 		Title:      "A persisted session resumes exactly where an uninterrupted one would be",
-		Explain:    "Equivalence of the two serving modes needs that nothing outside the persisted snapshot carries information across a request boundary; that is decided as an effect question: (R1) every field of state.State and cache.Cache that is read by a function reachable (CHA) from Exec/Flush/Finish/Reset is exported and not excluded from the CBOR snapshot (nested struct types included), except for a frozen table of fields each with a checked side condition (input: overwritten by Exec before the VM runs; invalid markers: only consulted by the persister); (R2) the unpersisted renderer objects hanging off the VM (vm.Vm, render.Page, render.Menu, render.Sizer): every field is classified automatically as configuration (no writer reachable from Vm.Run/Vm.Render), configuration-carried (every stored value derives from configuration), link (pointer to another renderer object) or request state, and every request-state field that some function reachable from Run/Render reads is must-written with a constant / zero / freshly made / configuration-derived value on every path through the resume block of Vm.Run (the region behind the 'WAIT was set' edge), by a forward must-analysis with callee summaries, fresh-object and nil-guard rules; (R4) Serialize/Deserialize use the same codec on the same object and Save/Load the same data type and key; (R6) what the unpersisted engine object sees does not depend on its age: the language is injected into the VM/renderer context only after the (possibly persisted) state has been established (C18 R2, shared), and the output-pending mark FLAG_DIRTY is raised with a constant only by Vm.Run (added after seeded changes C07-E and C07-F) R1 also requires that no live field is tagged omitempty (a zero value must overwrite what a reused object holds; added after seeded change C04-F); (R7) a refused State.Restart changes nothing - none of its writes (direct or through State methods) can be followed by one of its error returns (added after seeded change C07-G, which cleared the reserved flag byte before the refusal test). (R8) the configured default language is applied before the stored session is loaded and is not reachable after Persister.Load in any engine function (added after seeded change C07-J). (R9) the pre-VM hook calls no State mover: it runs once on a long-lived engine and on every request on per-request engines, and Down/Up clear the page index (one open finding: the pinned hook does exactly that). (R10) String/GoString/Error/Format methods of library types contain no field store, no element store into non-local memory, no map update and call no library function that does (they run wherever a value is logged, which differs between builds, log levels and serving modes; added after seeded change C07-L). (R11) = C20 R6: Finish saves whenever the engine was initialised and has a persister - no 'nothing moved' shortcut (added after seeded change C07-N). (R12) = C10 R10: the filesystem store hands back the bytes read from the file, untrimmed (added after seeded change C07-M, which stripped a trailing line feed from every stored value, snapshots included). (R13) = C12 R6: a failed open is a miss only when the file does not exist (added after seeded change C07-P). (R14) in the engine's once-per-engine initialisation no branch condition derives from the input parameter (added after seeded change C07-O, which moved 'empty input restarts the session' there).",
+		Explain:    "Equivalence of the two serving modes needs that nothing outside the persisted snapshot carries information across a request boundary; that is decided as an effect question: (R1) every field of state.State and cache.Cache that is read by a function reachable (CHA) from Exec/Flush/Finish/Reset is exported and not excluded from the CBOR snapshot (nested struct types included), except for a frozen table of fields each with a checked side condition (input: overwritten by Exec before the VM runs; invalid markers: only consulted by the persister); (R2) the unpersisted renderer objects hanging off the VM (vm.Vm, render.Page, render.Menu, render.Sizer): every field is classified automatically as configuration (no writer reachable from Vm.Run/Vm.Render), configuration-carried (every stored value derives from configuration), link (pointer to another renderer object) or request state, and every request-state field that some function reachable from Run/Render reads is must-written with a constant / zero / freshly made / configuration-derived value on every path through the resume block of Vm.Run (the region behind the 'WAIT was set' edge), by a forward must-analysis with callee summaries, fresh-object and nil-guard rules; (R4) Serialize/Deserialize use the same codec on the same object and Save/Load the same data type and key; (R6) what the unpersisted engine object sees does not depend on its age: the language is injected into the VM/renderer context only after the (possibly persisted) state has been established (C18 R2, shared), and the output-pending mark FLAG_DIRTY is raised with a constant only by Vm.Run (added after seeded changes C07-E and C07-F) R1 also requires that no live field is tagged omitempty (a zero value must overwrite what a reused object holds; added after seeded change C04-F); (R7) a refused State.Restart changes nothing - none of its writes (direct or through State methods) can be followed by one of its error returns (added after seeded change C07-G, which cleared the reserved flag byte before the refusal test). (R8) the configured default language is applied before the stored session is loaded and is not reachable after Persister.Load in any engine function (added after seeded change C07-J). (R9) the pre-VM hook calls no State mover: it runs once on a long-lived engine and on every request on per-request engines, and Down/Up clear the page index (one open finding: the pinned hook does exactly that). (R10) String/GoString/Error/Format methods of library types contain no field store, no element store into non-local memory, no map update and call no library function that does (they run wherever a value is logged, which differs between builds, log levels and serving modes; added after seeded change C07-L). (R11) = C20 R6: Finish saves whenever the engine was initialised and has a persister - no 'nothing moved' shortcut (added after seeded change C07-N). (R12) = C10 R10: the filesystem store hands back the bytes read from the file, untrimmed (added after seeded change C07-M, which stripped a trailing line feed from every stored value, snapshots included). (R13) = C12 R6: a failed open is a miss only when the file does not exist (added after seeded change C07-P). (R14) in the engine's once-per-engine initialisation no branch condition derives from the input parameter (added after seeded change C07-O, which moved 'empty input restarts the session' there). (R15) = C11 R15: Persister.Load decodes the bytes db.Db.Get returned in that call.",
 		NotDecided: "equality of outputs for all programs (needs R1, R2 and determinism of external code); fidelity of the cbor library; back-end specific behaviour (C10); DefaultEngine's own scratch flags (execd/exit/exiting are reset by prepare(); the implicit flush there is not analysed).",
 		Assume:     []string{"methods named String produce diagnostics only (their reads do not count as live reads)", "one Page, Menu and Sizer per VM (field-based abstraction)"},
 		Run:        runC07,
@@ -36,6 +36,7 @@ func runC07(w *core.World, r *core.Report) {
 	r.Rule("R4", "Serialize/Deserialize and Save/Load are symmetric")
 	r.Rule("R10", "String/Error/Format methods of library types change nothing (they run wherever a value is logged)")
 	r.Rule("R9", "the pre-VM hook, which runs at every engine initialisation, does not move the state (Down/Up clear the page index)")
+	r.Rule("R15", "Persister.Load decodes the bytes db.Db.Get returned in that call (C11 R15)")
 	r.Rule("R14", "the once-per-engine initialisation makes no decision on the request input (a long-lived engine runs it once, a per-request engine at every request)")
 	r.Rule("R13", "fs: a failed open is a miss only when the file does not exist (C12 R6): a fault is not taken for a new session and saved over the stored one")
 	r.Rule("R11", "Finish saves whenever the engine was initialised and has a persister (C20 R6): no request's progress is left unsaved")
@@ -250,6 +251,7 @@ func runC07(w *core.World, r *core.Report) {
 	checkHookKeepsPosition(w, r, "R9")
 	checkFinishAlwaysSaves(w, r, "R11", "a request that changed the pending code or the flags but made no move is not stored; the next per-request engine reloads the older snapshot and replays the same segment while an uninterrupted engine has advanced: ")
 	checkOpenErrorsClassified(w, r, "R13")
+	checkLoadReadsTheStore(w, r, "R15", "a resumed session is decoded from bytes the persister remembered instead of from the store - what another engine or request saved in between is ignored: ")
 	checkInitIgnoresRequestInput(w, r, "R14")
 	checkFsGetReturnsFileBytes(w, r, "R12", "the snapshot a session resumes from is not the bytes that were saved - a trailing line break trimmed, a cached copy - so the decode fails or yields another state than the uninterrupted session has: ")
 	checkDiagnosticsArePure(w, r, "R10")
